@@ -20,7 +20,8 @@ RULE = (
     "cases = one HTTP request each, issued through every public sender (get, put, post, put_json, post_json, post_tlv,"
     " pair-verify POSTs during connect) and the pairing API (get_characteristics over id sets of 1..40 ids x 1..3 aids,"
     " put_characteristics with nested/unicode/float/bool values, subscribe/unsubscribe, list_accessories, add/remove"
-    " pairing, identify, image) on IPv4, IPv6 and scoped-IPv6 peers, bodies 1 byte .. 5 kB (multi-frame when encrypted)."
+    " pairing, identify, image) on IPv4, IPv6 and scoped-IPv6 peers, bodies 1 byte .. 5 kB (multi-frame when encrypted),"
+    " and again after the connection was lost and re-established to a DIFFERENT advertised address (other family)."
     " Each request's reassembled plaintext is compared byte-for-byte with the canonical serialisation of its own"
     " (method, target, body) and with the API-level expectation; transport calls are counted per request."
     " Distinct by the request plaintext; non-trivial = all (zero-length-body PUT/POST are recorded, not judged)."
@@ -33,7 +34,7 @@ ASSUMPTIONS = [
 SHARDS = {"quick": 8, "thorough": 16}
 TIMEOUT = {"quick": 600, "thorough": 3600}
 MIN_CASES = {"quick": 1500, "thorough": 30000}
-REQUIRED_COUNTERS = ["requests_compared", "transport_calls_counted", "encrypted_requests", "plaintext_phase_requests", "multi_frame_requests", "json_bodies_scanned"]
+REQUIRED_COUNTERS = ["requests_compared", "transport_calls_counted", "encrypted_requests", "plaintext_phase_requests", "multi_frame_requests", "json_bodies_scanned", "reconnects_to_other_address"]
 
 HOSTS = ["10.0.0.5", "192.168.100.200", "fd00::5", "2001:db8::1:2", "fe80::1234%eth0", "fe80::1%3"]
 JSON_CT = "application/hap+json"
@@ -204,7 +205,10 @@ async def run_session(ctx, idx) -> None:
 
     rng = ctx.grng("C09", idx)
     host = HOSTS[idx % len(HOSTS)]
-    w = simnet.World(rng, hosts=[host])
+    host2 = HOSTS[(idx + 1 + (idx // len(HOSTS)) % (len(HOSTS) - 1)) % len(HOSTS)]  # a different address, often another family
+    state = {"refuse": set()}
+    # the first address answers first (the second is unreachable until the first connection has been made)
+    w = simnet.World(rng, hosts=[host, host2], behaviour=lambda h, a: "refuse" if (h in state["refuse"] or (h == host2 and not state.get("first_done"))) else "accept")
     try:
         try:
             await asyncio.wait_for(w.connection.ensure_connection(), 30)
@@ -218,6 +222,7 @@ async def run_session(ctx, idx) -> None:
             else:
                 ctx.mark_inconclusive(f"honest connection could not be established: {ex!r}")
             return
+        state["first_done"] = True
         s = Session(ctx, w, host, idx)
         conn = s.conn
         # the plaintext phase: two pair-verify POSTs, each one transport call, canonical
@@ -297,6 +302,34 @@ async def run_session(ctx, idx) -> None:
         await s.call("identify", p.identify(), expect_one("PUT", "/characteristics", None, JSON_CT, json_obj={"characteristics": [{"aid": 1, "iid": 2, "value": True}]}))
         wimg = {"aid": 2, "resource-type": "image", "image-width": 640, "image-height": 480}
         await s.call("image", p.image(2, 640, 480), expect_one("POST", "/resource", None, JSON_CT, json_obj=wimg))
+        # ---- reconnect to ANOTHER advertised address: the Host header must follow the connected peer ----
+        from vf import vloop
+
+        state["refuse"].add(host)
+        s.conn.close()
+        for _ in range(40):
+            await asyncio.sleep(0.5)
+            await vloop.settle()
+            if w.connection.is_connected:
+                break
+        if not w.connection.is_connected or w.accessory.conns[-1].host != host2:
+            ctx.count("reconnect_to_other_address_not_reached")
+        else:
+            s2 = Session(ctx, w, host2, idx)
+            conn2 = s2.conn
+            conn2.script.responder = responder
+            ctx.count("reconnects_to_other_address")
+            for r in [r for r in conn2.requests if not r["secure"]]:
+                ctx.case(r["raw"])
+                ctx.count("plaintext_phase_requests")
+                if generic_canonical(ctx, r, host2, {"label": idx, "call": "reconnect"}):
+                    ctx.count("requests_compared")
+            for k in range(3):
+                target = f"/x/after-reconnect-{k}"
+                await s2.call(f"get-after-reconnect({k})", c.get(target), expect_one("GET", target))
+            obj = {"k": "Küche 灯 💡", "n": [1, 2.5, None]}
+            await s2.call("put_json-after-reconnect", c.put_json("/echo-json", obj), expect_one("PUT", "/echo-json", None, JSON_CT, json_obj=obj))
+            await s2.call("get_characteristics-after-reconnect", p.get_characteristics([(1, 9), (2, 10)]), expect_read([(1, 9), (2, 10)]))
     finally:
         await w.close()
 
